@@ -67,7 +67,10 @@ func processHints(query sql.ISelect, hints *storage.SelectHints) sql.ISelect {
 		)
 	}
 	if rangeVectors[hints.Func] && hints.Step > hints.Range {
-		msInStep := sql.NewRawObject(fmt.Sprintf("timestamp_ms %% %d", hints.Step))
+		// the engine evaluates at hints.Start + hints.Range + k * hints.Step: position of a sample within the step
+		// that ends at such an evaluation time
+		phase := (hints.Start + hints.Range) % hints.Step
+		msInStep := sql.NewRawObject(fmt.Sprintf("(timestamp_ms + %d) %% %d", hints.Step-phase, hints.Step))
 		query.AndWhere(sql.Or(
 			sql.Eq(msInStep, sql.NewIntVal(0)),
 			sql.Ge(msInStep, sql.NewIntVal(hints.Step-hints.Range)),
